@@ -48,6 +48,9 @@ TARGETS = [
     ("has_frozen_base_class", "_make.py", ["_has_frozen_base_class"], False),
     ("default_init_alias_for", "_make.py", ["_default_init_alias_for"], False),
     ("to_bool", "converters.py", ["to_bool"], False),
+    ("setters_frozen", "setters.py", ["frozen"], False),
+    ("setters_validate", "setters.py", ["validate"], True),
+    ("setters_convert", "setters.py", ["convert"], False),
     ("frozen_setattrs", "_make.py", ["_frozen_setattrs"], True),
     ("frozen_delattrs", "_make.py", ["_frozen_delattrs"], True),
     ("attrs_wrap", "_make.py", ["attrs", "wrap"], True),
@@ -211,7 +214,10 @@ class Tr:
         if isinstance(f, ast.Name):
             n = f.id
             if n in scope and n not in self.local_fns:
-                raise Unsupported(f"call of local value {n}")
+                if e.keywords:
+                    raise Unsupported(f"keywords in call of local value {n}")
+                binds, ts = self.exs(e.args, scope)
+                return binds, f"(ext \"call\" [{', '.join([self.var(n, scope)] + ts)}])"
             if n in self.local_fns or n in self.sigs:
                 lean, params, defaults = self.sigs[n] if n in self.sigs else self.local_fns[n]
                 given = {}
@@ -299,7 +305,8 @@ class Tr:
         s, rest = stmts[0], stmts[1:]
         if isinstance(s, ast.Expr) and isinstance(s.value, ast.Constant) and isinstance(s.value.value, str):
             return self.blk(rest, scope, ind, ft)
-        if isinstance(s, ast.Pass):
+        if isinstance(s, (ast.Pass, ast.Import, ast.ImportFrom)):
+            # an import binds a module-level name; reads of it go through `env` like any other global
             return self.blk(rest, scope, ind, ft)
         if isinstance(s, ast.FunctionDef):
             self.nested_def(s, scope)
@@ -353,6 +360,12 @@ class Tr:
                 line = f"let effs := effs ++ [Eff.mk {lstr(s.value.func.attr)} [{', '.join(ts)}]]"
                 return self.emit(binds, line, ind) + "\n" + self.blk(rest, scope, ind, ft)
             v = s.value
+            if (self.effect and isinstance(v, ast.Call) and isinstance(v.func, ast.Name) and v.func.id in scope
+                    and v.func.id not in self.local_fns):
+                # calling a value the function was handed (a user callback) for its effect
+                binds, ts = self.eff_args(v, scope)
+                line = f"let effs := effs ++ [Eff.mk \"call\" [{', '.join([self.var(v.func.id, scope)] + ts)}]]"
+                return self.emit(binds, line, ind) + "\n" + self.blk(rest, scope, ind, ft)
             if (self.effect and isinstance(v, ast.Call) and isinstance(v.func, ast.Attribute)
                     and isinstance(v.func.value, ast.Name) and v.func.value.id not in scope):
                 # a call made for its effect on a global's attribute, e.g. `BaseException.__setattr__(self, name, value)`
